@@ -147,6 +147,21 @@ func (c07) Gen(r *rand.Rand, tier string, i int) any {
 				c.Args = append(c.Args, rv())
 			}
 		}
+		if r.Intn(3) == 0 {
+			// distinct structured values of one shape with equal Hash(): a set must keep them apart
+			twins := [][]gen.Val{
+				{gen.ListV(), gen.ListV(gen.Num(0)), gen.ListV(gen.ListV()), gen.ListV(gen.Num(0), gen.Num(0))},
+				{gen.MapV(), gen.MapV(gen.Num(0), gen.Num(0))},
+				{gen.StructV(), gen.StructV(gen.Name("/a"), gen.Num(0))},
+				{gen.ListV(gen.Num(1)), gen.ListV(gen.Num(1 + 1<<56))},
+				{gen.PairV(gen.Num(1), gen.Str("x")), gen.PairV(gen.Num(1+1<<57), gen.Str("x"))},
+				{gen.ListV(gen.Num(1), gen.Num(0)), gen.ListV(gen.Num(1))},
+				{gen.Num(0), gen.Float(0), gen.Dur(0)},
+				{gen.Name("/a"), gen.Str("/a")},
+			}
+			c.Args = append(c.Args, twins[r.Intn(len(twins))]...)
+			r.Shuffle(len(c.Args), func(a, b int) { c.Args[a], c.Args[b] = c.Args[b], c.Args[a] })
+		}
 	}
 	return c
 }
